@@ -408,7 +408,8 @@ def expected_pattern_lookup(chk, F, rule, cfg):
                 n += 1
                 lookups = list(q.calls(r'FnMocker::find_call_pattern_for_call_order$'))
                 dbg = list(q.calls(r'FnMocker::debug_pattern$'))
-                okl = all(field_path(l.data[2][0])[0] == ('param', 0, 2) and 'ordered_call_index' in show(l.data[2][1]) for l in lookups)
+                # (looked up in this element's table, with what the closure captured from the caller - the order position, whatever it is called)
+                okl = all(field_path(l.data[2][0])[0] == ('param', 0, 2) and ('ordered_call_index' in show(l.data[2][1]) or field_path(l.data[2][1])[0] == ('param', 0, 1)) for l in lookups)
                 okd = True
                 for d in dbg:
                     idx = strip(d.data[2][1])
